@@ -1,6 +1,7 @@
 package props
 
 import (
+	"sync"
 	"context"
 	"fmt"
 	"math/rand"
@@ -179,56 +180,12 @@ func runC06(e *core.Env, n int, race bool) {
 	// (3) early return: Invoke returns on cancel before the handler has decoded the request
 	e.Cases("early-return", n/2, func(i int, r *rand.Rand) {
 		ci := i % len(choices)
-		c := carriers[ci]
-		sc := genDeliveryScript(r, Unary, false, false)
-		if len(sc.UnaryReq.Payload) == 0 {
-			sc.UnaryReq.Payload = []byte("early-return-payload")
-		}
-		orig := proto.Clone(sc.UnaryReq).(*tpb.Message)
-		req := proto.Clone(sc.UnaryReq).(*tpb.Message)
-		run := c.Svc.NewRun(sc, "inproc/"+choices[ci].name)
-		plan := newHookPlan()
-		plan.parkPt, plan.parkNth = "unary.server.start", 1
-		hookPlans.Store(run.ID, plan)
-		defer hookPlans.Delete(run.ID)
-		defer c.Svc.Forget(run)
-		var seen *tpb.Message
-		run.OnHRecv = func(m *tpb.Message) { seen = proto.Clone(m).(*tpb.Message) }
-		ctx, cancel := context.WithCancel(metadata.AppendToOutgoingContext(context.Background(), runKey, run.ID))
-		defer cancel()
-		res := make(chan error, 1)
-		go func() { res <- c.CC.Invoke(ctx, Unary.Method(), req, new(tpb.Message)) }()
-		select {
-		case <-plan.parked:
-		case err := <-res:
-			plan.Release()
-			e.Inconclusive("C06 early-return: Invoke returned before the server goroutine reached its start hook: %v", err)
+		seen, orig, placed := earlyReturnUnary(e, "C06", carriers[ci], "inproc/"+choices[ci].name, r)
+		if !placed {
 			return
-		case <-time.After(watchdog):
-			plan.Release()
-			e.Inconclusive("C06 early-return: hook not reached")
-			return
-		}
-		cancel()
-		var ierr error
-		select {
-		case ierr = <-res:
-		case <-time.After(watchdog):
-			plan.Release()
-			e.Inconclusive("C06 early-return: Invoke did not return after cancel")
-			return
-		}
-		// Invoke has returned: the caller may reuse its message
-		mutateMsg(req)
-		plan.Release()
-		// let the server goroutine finish (it may or may not run the handler)
-		select {
-		case <-run.handlerDone:
-		case <-time.After(300 * time.Millisecond):
 		}
 		e.Eval(fmt.Sprintf("early-return|%s", choices[ci].name), true)
 		e.Count("early_returns_placed", 1)
-		_ = ierr
 		if seen != nil && !sameMsg(seen, orig) {
 			e.Violate("inproc/"+choices[ci].name+"/unary/read-after-return", fmt.Sprintf("Invoke had returned (cancelled) and the caller overwrote its request; the handler then decoded the overwritten content: %s", msgDesc(seen)), map[string]any{"cloner": choices[ci].name, "original": msgDesc(orig), "handler_saw": msgDesc(seen)})
 		}
@@ -282,4 +239,62 @@ func checkC06Dynamic(e *core.Env) {
 		}
 	})
 	_ = grpc.Header
+}
+
+// earlyReturnUnary makes an in-process unary call return on cancellation while the server goroutine is
+// parked at its very start, lets the caller overwrite its request (legal once Invoke has returned) and
+// then lets the server side go on. It reports what the handler decoded (nil if it never got that far).
+func earlyReturnUnary(e *core.Env, prop string, c *Carrier, name string, r *rand.Rand) (seen, orig *tpb.Message, placed bool) {
+	sc := genDeliveryScript(r, Unary, false, false)
+	if len(sc.UnaryReq.Payload) == 0 {
+		sc.UnaryReq.Payload = []byte("early-return-payload")
+	}
+	orig = proto.Clone(sc.UnaryReq).(*tpb.Message)
+	req := proto.Clone(sc.UnaryReq).(*tpb.Message)
+	run := c.Svc.NewRun(sc, name)
+	plan := newHookPlan()
+	plan.parkPt, plan.parkNth = "unary.server.start", 1
+	hookPlans.Store(run.ID, plan)
+	defer hookPlans.Delete(run.ID)
+	defer c.Svc.Forget(run)
+	var mu sync.Mutex
+	run.OnHRecv = func(m *tpb.Message) {
+		mu.Lock()
+		seen = proto.Clone(m).(*tpb.Message)
+		mu.Unlock()
+	}
+	ctx, cancel := context.WithCancel(metadata.AppendToOutgoingContext(context.Background(), runKey, run.ID))
+	defer cancel()
+	res := make(chan error, 1)
+	go func() { res <- c.CC.Invoke(ctx, Unary.Method(), req, new(tpb.Message)) }()
+	select {
+	case <-plan.parked:
+	case err := <-res:
+		plan.Release()
+		e.Inconclusive("%s early-return: Invoke returned before the server goroutine reached its start hook: %v", prop, err)
+		return nil, orig, false
+	case <-time.After(watchdog):
+		plan.Release()
+		e.Inconclusive("%s early-return: hook not reached", prop)
+		return nil, orig, false
+	}
+	cancel()
+	select {
+	case <-res:
+	case <-time.After(watchdog):
+		plan.Release()
+		e.Inconclusive("%s early-return: Invoke did not return after cancel", prop)
+		return nil, orig, false
+	}
+	// Invoke has returned: the caller may reuse its message
+	mutateMsg(req)
+	plan.Release()
+	// let the server goroutine finish (it may or may not run the handler)
+	select {
+	case <-run.handlerDone:
+	case <-time.After(300 * time.Millisecond):
+	}
+	mu.Lock()
+	defer mu.Unlock()
+	return seen, orig, true
 }
